@@ -227,6 +227,40 @@ def diff_files(a, b):
     return [n for n in names if a.get(n) != b.get(n)]
 
 
+def reexport_config_check(chk, rng):
+    """An exported project is a description of the network at the time of the export.  Exporting again into the same directory after
+    the network changed (here: a rate modifier assigned) has to rewrite the configuration too: `naunet render` there must reproduce
+    the direct rendering of the network as it is now."""
+    from .c17 import run_worker
+    d = gen_desc(rng, 0)
+    while d["replacement"] or d["allowed"]:
+        d = gen_desc(rng, 0)
+    d = dict(d, rate_modifier={}, ode_modifier={}, required=[], cooling=[], shielding={})
+    d.pop("ode_modifier_terms", None)
+    mod = {"2": "3.3e-11 * sqrt(Tgas)", "4": "0.0"}
+    edir = chk.scratch / "reexport-config" / "proj"
+    edir.parent.mkdir(parents=True)
+    back = list(BACK[d["method"]])
+    res = run_worker({"steps": [{"op": "build", "id": "A", "desc": d},
+                                {"op": "export", "id": "A", "dir": str(edir), "backend": back, "tag": ["export-1"]},
+                                {"op": "set_rate_modifier", "id": "A", "values": mod},
+                                {"op": "export", "id": "A", "dir": str(edir), "backend": back, "tag": ["export-2"]},
+                                {"op": "cli_render", "dir": str(edir), "tag": ["re-render"]},
+                                {"op": "render", "id": "A", "backend": back, "tag": ["direct"]}]}, 0)
+    chk.count(("reexport-config",), nontrivial=True)
+    chk.hist["reexport-config"] += 1
+    if isinstance(res, dict) or any("error" in r for r in res):
+        err = res.get("crash") if isinstance(res, dict) else next(r["error"] for r in res if "error" in r)
+        chk.violation({"kind": "re-export-raised"}, f"export / modify / export / render raised: {str(err)[-300:]}", input={"method": d["method"]})
+        return
+    rer, direct = res[2], res[3]
+    if rer.get("canon") != direct.get("canon"):
+        chk.violation({"kind": "re-export-stale-config"},
+                      "after a second export into the same directory `naunet render` there does not reproduce the direct rendering: the "
+                      "configuration still describes the network of the first export", input={"method": d["method"], "rate_modifier_assigned": mod},
+                      re_rendered=rer.get("canon"), direct=direct.get("canon"))
+
+
 def run(argv):
     tier, seed = tier_and_seed(argv)
     chk = Check("C20", tier, seed, MODULES, THEOREMS, RULE)
@@ -265,6 +299,7 @@ def run(argv):
         descs.append(d)
     ex_cases = [4, 5, 7, 8, 11] if tier == "quick" else [0, 1, 3, 4, 5, 6, 7, 8, 9, 10, 11, 16, 17, 18]
     process(chk, descs, ex_cases)
+    reexport_config_check(chk, rng)
     return chk.finish()
 
 
